@@ -536,6 +536,8 @@ structure Handle where
   id : Nat
   side : Side
   gen : Nat
+  /-- (for the theorems only; `Release` never looks at it) the limiter inside the `remoteWrapper` when it admitted -/
+  inner : Nat := 0
   deriving DecidableEq, Repr, Inhabited
 
 structure State where
@@ -695,7 +697,7 @@ def acquireStep (st : State) (id : Nat) : State :=
         let cnt := if ev then { c.cnt with event := true } else c.cnt
         if g.inner.admits c.fl.remCount then
           { st with lastAdmit := some true, inflight := st.inflight + 1,
-                    handles := { id := id, side := .rem, gen := c.fl.remOuter } :: st.handles,
+                    handles := { id := id, side := .rem, gen := c.fl.remOuter, inner := c.fl.remInner } :: st.handles,
                     cache := some { c with cnt := cnt, fl := { c.fl with remCount := c.fl.remCount + 1 } } }
         else { st with lastAdmit := some false, cache := some { c with cnt := cnt } }
     | _, _ =>
